@@ -121,12 +121,17 @@ type GenOpts struct {
 	Tx                   bool
 	ForkBias             bool // prefer view changes to fork branches
 	Prefill              bool // allow pre-filled stores
+	MinBase              int  // smallest main-branch length before the script
+	FixedParams          bool // one cheap parameter set (large worlds)
 }
 
 // GenScript draws a header-level script.
 func GenScript(t *rapid.T, o GenOpts) Script {
 	p := kit.GenParams(t)
-	base := rapid.IntRange(0, o.MaxBase).Draw(t, "base")
+	if o.FixedParams {
+		p = kit.ParamSpec{Retarget: 0, Spacing: 60, Adj: 4, VerFloor: 1}
+	}
+	base := rapid.IntRange(o.MinBase, o.MaxBase).Draw(t, "base")
 	fut := rapid.IntRange(1, o.MaxFuture).Draw(t, "future")
 	// Context mode (one case in six when stores may be pre-filled): the
 	// client starts on a non-genesis tip with more than eleven stored
